@@ -96,6 +96,35 @@ func soupProgram(c *worker.Ctx) (string, bool) {
 		fmt.Fprintf(&b, "  set %s %s %s;\n", target, op, val)
 		boundary = true
 	}
+	// expression shapes: signed and negated operands at every position of a
+	// concatenation, in conditions and on the right of every local's type
+	ne := c.T.Draw(4)
+	for i := 0; i < ne; i++ {
+		pfx := func() string { return []string{"", "", "+", "-"}[c.T.Draw(4)] }
+		lv := func() string { return locals[c.T.Draw(len(locals))].name }
+		lit := func() string {
+			return []string{`"s"`, `"/"`, `""`, "req.url", "req.http.X-A", "req.http.Not-Set", "now", "10s", "1", "1.5"}[c.T.Draw(10)]
+		}
+		op := func() string { return []string{" ", " + ", " "}[c.T.Draw(3)] }
+		switch c.T.Draw(7) {
+		case 0:
+			fmt.Fprintf(&b, "  set req.http.X-A = %s%s%s%s;\n", pfx(), lv(), op(), lit())
+		case 1:
+			fmt.Fprintf(&b, "  set var.s = %s%s%s%s%s%s;\n", lit(), op(), pfx(), lv(), op(), lit())
+		case 2:
+			fmt.Fprintf(&b, "  log %s%s%s%s%s%s%s;\n", pfx(), lv(), op(), lit(), op(), pfx(), lv())
+		case 3:
+			l := locals[c.T.Draw(len(locals))]
+			fmt.Fprintf(&b, "  set %s = %s%s;\n", l.name, pfx(), l.name)
+		case 4:
+			fmt.Fprintf(&b, "  if (%s%s %s %s%s) { log \"c\"; }\n", pfx(), lv(), []string{"==", "!=", ">", "<", ">=", "<=", "~", "!~"}[c.T.Draw(8)], pfx(), lv())
+		case 5:
+			fmt.Fprintf(&b, "  if (!var.b && (%s%s == %s || !(%s))) { log \"c\"; }\n", pfx(), lv(), lit(), []string{"var.b", "req.http.X-A", "var.s", "var.i == 1"}[c.T.Draw(4)])
+		default:
+			fmt.Fprintf(&b, "  set req.http.X-A = if(%s%s %s %s, %s%s, %s);\n", pfx(), lv(), []string{"==", ">", "~"}[c.T.Draw(3)], lit(), pfx(), lv(), lit())
+		}
+		boundary = true
+	}
 	if c.T.Bool(1, 3) {
 		b.WriteString("  log var.i var.f var.s var.b var.r var.t var.ip;\n")
 	}
